@@ -23,7 +23,7 @@ REQUIRED = {"jit_equals_eager": {"quick": 100, "thorough": 300}, "vmap_equals_lo
 REQUIRED_TAPS = {"step:traced": 500}
 ASSUMPTIONS = ["union-typed parameters (velocity, diffusivity, dispersivity) are batched in their documented array form (D,), not as 0-d tracers",
                "float64 session; compiled vs eager agree to 1e-10 of the state scale, lanes are compared bit-exactly for non-interference"]
-TIMEOUT = {"quick": 1200, "thorough": 3000}
+TIMEOUT = {"quick": 2400, "thorough": 7200}
 TOL = 1e-10
 
 
